@@ -50,13 +50,13 @@ def _oracle_rec_rows(cfg):
     """rows of waverec(wavedec(.)) per slice: array (out shape..., n)"""
     if cfg['dim'] == 1:
         N = cfg['N']
-        c = pywt.wavedec(np.eye(N), cfg['wave'], mode=cfg['mode'], level=cfg['J'], axis=-1)
-        r = pywt.waverec(c, cfg['wave'], mode=cfg['mode'], axis=-1)
+        c = pywt.wavedec(np.eye(N), D.W(cfg['wave']), mode=cfg['mode'], level=cfg['J'], axis=-1)
+        r = pywt.waverec(c, D.W(cfg['wave']), mode=cfg['mode'], axis=-1)
         return np.moveaxis(r, 0, -1)
     H, W = cfg['H'], cfg['W']
     n = H * W
-    c = pywt.wavedec2(np.eye(n).reshape(n, H, W), cfg['wave'], mode=cfg['mode'], level=cfg['J'], axes=(-2, -1))
-    r = pywt.waverec2(c, cfg['wave'], mode=cfg['mode'], axes=(-2, -1))
+    c = pywt.wavedec2(np.eye(n).reshape(n, H, W), D.W(cfg['wave']), mode=cfg['mode'], level=cfg['J'], axes=(-2, -1))
+    r = pywt.waverec2(c, D.W(cfg['wave']), mode=cfg['mode'], axes=(-2, -1))
     return np.moveaxis(r, 0, -1)
 
 
@@ -71,7 +71,7 @@ def case(cfg, ident):
     in_specs = [('x', D.in_shape(cfg))]
 
     def impl(pw, ts):
-        y = _roundtrip(pw, cfg, ts[0])
+        y = D.call_ctx(pw, cfg, lambda a: _roundtrip(pw, cfg, a[0]), ts)
         sp = D.in_shape(cfg)[2:]
         ok = len(y.shape) == len(sp) + 2 and all(g == s_ or (s_ % 2 == 1 and g == s_ + 1) for g, s_ in zip(tuple(y.shape[2:]), sp))
         if not ok:
@@ -83,10 +83,10 @@ def case(cfg, ident):
         if ident:
             return [x]
         if cfg['dim'] == 1:
-            co = pywt.wavedec(x, cfg['wave'], mode=cfg['mode'], level=cfg['J'], axis=-1)
-            return [pywt.waverec(co, cfg['wave'], mode=cfg['mode'], axis=-1)[..., :cfg['N']]]
-        co = pywt.wavedec2(x, cfg['wave'], mode=cfg['mode'], level=cfg['J'], axes=(-2, -1))
-        return [pywt.waverec2(co, cfg['wave'], mode=cfg['mode'], axes=(-2, -1))[..., :cfg['H'], :cfg['W']]]
+            co = pywt.wavedec(x, D.W(cfg['wave']), mode=cfg['mode'], level=cfg['J'], axis=-1)
+            return [pywt.waverec(co, D.W(cfg['wave']), mode=cfg['mode'], axis=-1)[..., :cfg['N']]]
+        co = pywt.wavedec2(x, D.W(cfg['wave']), mode=cfg['mode'], level=cfg['J'], axes=(-2, -1))
+        return [pywt.waverec2(co, D.W(cfg['wave']), mode=cfg['mode'], axes=(-2, -1))[..., :cfg['H'], :cfg['W']]]
     return in_specs, impl, ref
 
 
